@@ -178,7 +178,10 @@ def module_of(node: ast.AST) -> Module:
 
 def site(node: ast.AST) -> str:
     m = module_of(node)
-    return f"{m.relpath}:{getattr(node, 'lineno', 0)}"
+    cur = node
+    while cur is not None and not hasattr(cur, "lineno"):
+        cur = getattr(cur, "_parent", None)
+    return f"{m.relpath}:{getattr(cur, 'lineno', 0)}"
 
 
 def qual(node: ast.AST) -> str:
